@@ -4,7 +4,7 @@ Every option of ProjectSettings x representative and boundary values of its type
 formats (project-file metadata, fpm.toml [extra.ford], --config) x command line present/absent x
 two working directories, through the real ford.initialize (= get_command_line_arguments +
 load_settings + parse_arguments) in scratch directories; random subsets of options; ill-typed
-values, unknown keys and malformed metadata.  Every outcome is compared with the Coq model
+values (every format), flags and numbers given as text, unknown keys and malformed metadata.  Every outcome is compared with the Coq model
 (correspondence) and the outcomes of one option set are compared with each other (the property).
 """
 import contextlib
@@ -29,10 +29,12 @@ THEOREMS = [
     "C15_schema_sound", "C15_int_roundtrip", "C15_md_toml_agree", "C15_toml_config_agree", "C15_formats_agree",
     "C15_precedence", "C15_file_over_default", "C15_unknown_key_dropped", "C15_unknown_key_dropped_toml",
     "C15_unknown_key_dropped_config", "C15_ill_typed_md_bool_named", "C15_ill_typed_md_int_named",
-    "C15_ill_typed_md_dict_named", "C15_ill_typed_refuted_toml", "C15_ill_typed_refuted_config",
+    "C15_ill_typed_md_dict_named", "C15_ill_typed_toml_named", "C15_ill_typed_config_named",
+    "C15_text_values_agree", "C15_toml_config_agree_raw", "C15_ill_typed_scalar_full",
+    "C15_ill_typed_refuted_nonscalar", "C15_ill_typed_toml_fixed", "C15_ill_typed_config_fixed",
     "C15_paths_relative_to_project", "C15_paths_anchored",
 ]
-REGIONS = {2: "toml-values-unchecked", 3: "config-values-unchecked"}
+REGIONS = {4: "nonscalar-values-unchecked"}
 UNMODELLED, MALFORMED = 1000, 2000
 
 
@@ -534,6 +536,8 @@ class Ctx:
             spec = f"(SIll {sp[1]} {coq_str(sp[2])})"
         elif sp[0] == "unk":
             spec = f"(SUnk {sp[1]} {coq_str(asc(sp[2]))})"
+        elif sp[0] == "same":
+            spec = f"(SSame {iout_coq(r['same_as'])})"
         else:
             spec = f"(SCli {iout_coq(r['clionly'])})"
         inp = (f"(mkinput {strs_coq(r['lines'])} {core.coq_opt(r['toml'], kv_coq)} {core.coq_opt(r['cfg'], kv_coq)} "
@@ -541,17 +545,29 @@ class Ctx:
         return f"(mkr {inp} {iout_coq(r['out'])} {spec})"
 
 
+def text_values(tclass):
+    """flags and numbers given as text: (texts that convert, the same texts with blanks around them).
+    The first are the same option value in the three formats; the second are correspondence only
+    (the blanks are syntax in the project file and part of the string in TOML)."""
+    if tclass == "TBool":
+        return ["true", "TRUE", "False", "tRuE", "false"], [" true", "false ", "\ttrue"]
+    if tclass in ("TInt", "TOptInt"):
+        return ["4", "-3", "+7", "1_000", "007", "0", "1000000007"], [" 4 ", "5 ", " -0"]
+    return [], []
+
+
 def ill_typed_values(tclass):
-    """(markdown value lists, TOML values) that are not values of the declared type"""
+    """(markdown value lists, TOML values) that are not values of the declared type (and, for flags and
+    numbers, not texts that convert)"""
     md, tm = [], []
     if tclass == "TBool":
         md = [["maybe"], ["yes"], ["1"], [""], ["true", "false"]]
-        tm = ["maybe", 1, ["true"], 2.5]
+        tm = ["maybe", 1, ["true"], 2.5, "yes", "", "1", 0, {"a": True}]
     elif tclass in ("TInt", "TOptInt"):
         md = [["four"], ["4.5"], [""], ["1__0"], ["0x10"]]
-        tm = ["4", "four", 2.5, ["4"], True]
+        tm = ["four", 2.5, ["4"], True, "4.5", "", "1__0", "0x10", [4], {"a": 4}]
     elif tclass in ("TStr", "TOptStr"):
-        tm = [5, True, ["a", "b"], {"a": "b"}]
+        tm = [5, True, ["a", "b"], {"a": "b"}, 2.5, [], ["one"]]
     elif tclass in ("TPath", "TOptPath"):
         tm = [5, True, ["a"], {"a": "b"}]
     elif tclass == "TListStr":
@@ -679,6 +695,22 @@ def generate(ctx, chk):
         for v in tm:
             ctx.run_raw([], [(name, v)], None, [], rng.choice([0, 1]), ("ill", 1, name), what="ill-typed fpm.toml")
             ctx.run_raw([], None, [(name, v)], [], rng.choice([0, 1]), ("ill", 2, name), what="ill-typed --config")
+    # (3b) flags and numbers given as text: the same text in the three formats
+    for name, tclass, init in ctx.schema:
+        good, padded = text_values(tclass)
+        if quick:
+            good = rng.sample(good, min(2, len(good)))
+            padded = rng.sample(padded, min(1, len(padded)))
+        for x in good:
+            variant = rng.choice([0, 1])
+            m = ctx.run_raw([f"{name}: {x}"], None, None, [], variant, what="flag/number as text, project file")
+            for fmt in (1, 2):
+                r = ctx.run_raw([], [(name, x)] if fmt == 1 else None, [(name, x)] if fmt == 2 else None, [], variant,
+                                ("same", fmt, name), what="flag/number as text, " + ("fpm.toml", "--config")[fmt - 1])
+                r["same_as"], r["same_lines"] = m["out"], m["lines"]
+        for x in padded:
+            ctx.run_raw([], [(name, x)], None, [], 0, what="flag/number as padded text")
+            ctx.run_raw([], None, [(name, x)], [], 0, what="flag/number as padded text")
     # (4) unknown keys
     for key in ["foo", "src-dir", "projectx", "Unknown_Key", "x9"]:
         k2 = key.lower()
@@ -936,7 +968,7 @@ def count_cases(chk, ctx):
 
 
 def witnesses(chk, ctx):
-    """open findings: replay the witness (KNOWN-FINDING lines); repaired defects: the former witnesses are
+    """open finding: replay the witness (KNOWN-FINDING line); repaired defects: the former witnesses are
     regression inputs -- the defect coming back is a failing input"""
     im, sp = ctx.impl, ctx.spec
 
@@ -947,10 +979,27 @@ def witnesses(chk, ctx):
         chk.count(("regression", key), sample=None)
         if bad:
             chk.violation("failing-input", {"what": "a repaired defect is back: " + key, "input": what, "ford": got}, True)
+    x = im.run("", "[extra.ford]\nexclude = 5\n", None, [], 0, sp)
+    chk.known("nonscalar-values-unchecked", field(x, "exclude") == ["L", [["I", 5]]])
     a = im.run("", "[extra.ford]\nmax_frontpage_items = \"4\"\n", None, [], 0, sp)
-    chk.known("toml-values-unchecked", field(a, "max_frontpage_items") == ["S", "4"])
+    a2 = im.run("", "[extra.ford]\ngraph = \"maybe\"\n", None, [], 0, sp)
+    a3 = im.run("", "[extra.ford]\ngraph = 3\n", None, [], 0, sp)
+    regression("toml-values-unchecked", "fpm.toml: max_frontpage_items = \"4\" (must give 4); graph = \"maybe\", graph = 3 "
+               "(must be rejected naming graph)",
+               not (field(a, "max_frontpage_items") == ["I", 4] and all(o[0] == "exc" and "'graph'" in o[2] for o in (a2, a3))),
+               [a if a[0] != "full" else ["full", {"max_frontpage_items": field(a, "max_frontpage_items")}],
+                a2 if a2[0] != "full" else ["full", {"graph": field(a2, "graph")}],
+                a3 if a3[0] != "full" else ["full", {"graph": field(a3, "graph")}]])
     g = im.run("", None, "graph = 'maybe'", [], 0, sp)
-    chk.known("config-values-unchecked", field(g, "graph") == ["S", "maybe"])
+    g2 = im.run("", None, "max_frontpage_items = '4'", [], 0, sp)
+    g3 = im.run("", None, "project = 5", [], 0, sp)
+    regression("config-values-unchecked", "--config \"graph = 'maybe'\", \"project = 5\" (must be rejected naming the option); "
+               "\"max_frontpage_items = '4'\" (must give 4)",
+               not (g[0] == "exc" and "'graph'" in g[2] and g3[0] == "exc" and "'project'" in g3[2]
+                    and field(g2, "max_frontpage_items") == ["I", 4]),
+               [g if g[0] != "full" else ["full", {"graph": field(g, "graph")}],
+                g2 if g2[0] != "full" else ["full", {"max_frontpage_items": field(g2, "max_frontpage_items")}],
+                g3 if g3[0] != "full" else ["full", {"project": field(g3, "project")}]])
     cfg = "display = 'Private'; src_dir = './s1'; project_url = 'https://x.org'; output_dir = 'out'"
     b = im.run("", None, cfg, [], 0, sp)
     t = im.run("", "[extra.ford]\n" + cfg.replace("; ", "\n") + "\n", None, [], 0, sp)
@@ -1010,6 +1059,10 @@ def replay(chk, rep):
                 r["cfg"] = parsed_table(c["config"], config=True)
                 r["out"] = im.diffed(im.run(file_text(c["lines"]), c["toml_text"], c["config"],
                                             [(d, v) for d, v in c["cli"]], c["variant"], ctx.spec))
+            if c["spec"][0] == "same":        # the project-file form of the same text, run again
+                m = ctx.run_raw(c["same_lines"], None, None, [], c["variant"])
+                r["same_as"] = m["out"]
+                print("project file:", json.dumps(m["out"])[:1500])
             print("impl:", json.dumps(r["out"])[:3000])
             res = chk.coq_judge(IMPORTS, "rcase", "judge_raw", [ctx.raw_term(r)])
         print("judge code:", res, "(bit0 model!=impl, bit1 property violated, bits>=2 region)")
